@@ -101,6 +101,11 @@ pub fn judge(ctx: &mut Ctx, script: &Script, shrink: bool) {
 pub fn run(ctx: &mut Ctx) {
     crate::util::private_home(&ctx.work.clone(), "c24");
     if let Some(rep) = ctx.replay.clone() {
+        if rep["stdio"].as_bool().unwrap_or(false) {
+            judge_stdio(ctx, &crate::lspstdio::case_from_json(&rep));
+            println!("replay: signatures {:?}", ctx.sig_counts.keys().collect::<Vec<_>>());
+            return;
+        }
         let s = script_from_json(&rep);
         judge(ctx, &s, false);
         println!("replay: signatures {:?}", ctx.sig_counts.keys().collect::<Vec<_>>());
@@ -121,5 +126,62 @@ pub fn run(ctx: &mut Ctx) {
             script.sched_seed = 0;
         }
         judge(ctx, &script, true);
+    }
+    // ---- the shipped binary over real stdio (initialize handshake, init-time queue, shutdown, process death) ----
+    let ns = ctx.budget(3, 40);
+    for i in 0..ns {
+        if ctx.out_of_time() {
+            break;
+        }
+        let mut rng = Rng::new(ctx.case_seed(i) ^ 0x57d10);
+        let case = crate::lspstdio::gen_case(&mut rng, i as usize * 16 + ctx.shard as usize);
+        judge_stdio(ctx, &case);
+    }
+}
+
+pub fn judge_stdio(ctx: &mut Ctx, case: &crate::lspstdio::StdioCase) {
+    use crate::lspstdio as st;
+    let o = match st::run_case(&ctx.work.clone(), ctx.shard, case) {
+        Ok(o) => o,
+        Err(e) => {
+            ctx.inconclusive(&format!("stdio-harness:{}", e.split(':').next().unwrap_or("")));
+            return;
+        }
+    };
+    if let Some(r) = &o.inconclusive {
+        ctx.inconclusive(r);
+        return;
+    }
+    ctx.clause("stdio:process-run");
+    ctx.clause_n("stdio:requests-sent", o.sent.len() as u64);
+    ctx.clause_n("stdio:error-responses", o.error_responses as u64);
+    ctx.clause_n("stdio:server-requests-answered", o.server_requests as u64);
+    if case.init_mal != 0 {
+        ctx.clause("stdio:initialize-malformed");
+    }
+    if case.pre_init_request {
+        ctx.clause("stdio:request-before-initialize");
+    }
+    if o.exit_status.is_some() {
+        ctx.clause("stdio:exit-observed");
+    }
+    let v = st::oracle(&o);
+    if v.is_empty() {
+        ctx.clause("stdio:history-checked");
+        let h = crate::rng::fnv(st::case_to_json(case).to_string().as_bytes());
+        ctx.held(h, o.sent.len() >= 3);
+        if ctx.want_sample() && h % 7 == 0 {
+            ctx.sample(json!({"stdio_case": st::case_to_json(case), "requests": o.sent.len(), "responses": o.responses.len(), "error_responses": o.error_responses, "server_requests": o.server_requests, "notifications": o.notifications, "exit": o.exit_status}));
+        }
+        return;
+    }
+    let mut first = true;
+    for (sig, detail) in v {
+        if first {
+            first = false;
+            ctx.violated(&sig, &detail, st::case_to_json(case));
+        } else {
+            ctx.add_violation(&sig, &detail, st::case_to_json(case));
+        }
     }
 }
